@@ -215,6 +215,218 @@ def run_wrapper_exception_probe():
     return bad
 
 
+# ----------------------------------------------------------------------------- C01: external asset documents belong to their run
+def external_assets_probe():
+    """a detector that writes external assets (collect_asset_docs) and composes its Resource with a STAND-IN RunStart
+    without popping 'run_start' again: the RunEngine stamps every Resource with the uid of the run that is open, emitted
+    after that run's RunStart; every datum refers to an emitted resource"""
+    import time
+
+    import event_model
+    from bluesky.utils import Msg
+
+    class FileDet:
+        parent = None
+
+        def __init__(self, name, keep_run_start):
+            self.name, self.keep = name, keep_run_start
+            self._docs, self._cd = [], None
+
+        def stage(self):
+            b = event_model.compose_resource(start={"uid": "not-a-real-run", "time": 0.0}, spec="NPY_SEQ", root="/data",
+                                             resource_path=f"{self.name}/frames", resource_kwargs={})
+            doc = dict(b.resource_doc)
+            if not self.keep:
+                doc.pop("run_start", None)
+            self._cd = b.compose_datum
+            self._docs.append(("resource", doc))
+            return [self]
+
+        def unstage(self):
+            return [self]
+
+        def describe(self):
+            return {f"{self.name}_image": {"source": "sim", "dtype": "array", "shape": [4, 4], "external": "FILESTORE:"}}
+
+        def read(self):
+            d = self._cd(datum_kwargs={"index": 0})
+            self._docs.append(("datum", d))
+            return {f"{self.name}_image": {"value": d["datum_id"], "timestamp": time.time()}}
+
+        def collect_asset_docs(self):
+            docs, self._docs = self._docs, []
+            yield from docs
+
+        def read_configuration(self):
+            return {}
+
+        def describe_configuration(self):
+            return {}
+
+    bad = []
+    for keep in (True, False):
+        for nruns in (1, 2):
+            RE, docs = _engine()
+            det = FileDet("cam", keep)
+
+            def plan(det=det, nruns=nruns):
+                for _ in range(nruns):
+                    yield Msg("stage", det)
+                    yield Msg("open_run")
+                    for _ in range(2):
+                        yield Msg("checkpoint")
+                        yield Msg("create", name="primary")
+                        yield Msg("read", det)
+                        yield Msg("save")
+                    yield Msg("close_run")
+                    yield Msg("unstage", det)
+
+            out = _run(RE, plan())
+            case = {"probe": "external-assets", "resource_carries_run_start": keep, "runs": nruns}
+            if out[0] != "return":
+                bad.append(("external-assets:call-failed", f"{case}: {type(out[1]).__name__}: {out[1]}", case))
+                continue
+            cur = None
+            resources = set()
+            for n, d in docs:
+                if n == "start":
+                    cur = d["uid"]
+                elif n == "stop":
+                    cur = None
+                elif n == "resource":
+                    resources.add(d["uid"])
+                    if d.get("run_start") != cur or cur is None:
+                        bad.append(("external-assets:resource-refers-to-another-run", f"a Resource emitted inside run {cur} carries run_start = {d.get('run_start')!r} (the device composed it with a stand-in RunStart{' and left run_start in' if keep else ''})", case))
+                        break
+                elif n == "datum" and d.get("resource") not in resources:
+                    bad.append(("external-assets:datum-before-its-resource", f"datum {d.get('datum_id')} refers to resource {d.get('resource')} which was not emitted before", case))
+                    break
+    return bad
+
+
+# ----------------------------------------------------------------------------- C17: the metadata mapping handed to the engine
+def metadata_store_probe():
+    """(a) the mapping passed to RunEngine(md) IS RE.md -- also when it is empty at construction time -- so scan_id is kept
+    in the caller's (persistent) store and continues across engines; (b) the validator only accepts or rejects: a validator
+    that scribbles on its argument does not change the RunStart"""
+    from bluesky import RunEngine
+    from bluesky.utils import Msg
+
+    class Store(dict):
+        pass
+
+    bad = []
+    for mk in (dict, Store):
+        md = mk()
+        logging.getLogger("bluesky").setLevel(logging.CRITICAL)
+        seen = []
+        for session in range(2):
+            RE = RunEngine(md, context_managers=[], loop=_loop())
+            docs = []
+            RE.subscribe(lambda n, d, docs=docs: docs.append((n, d)))
+            case = {"probe": "metadata-store", "mapping": mk.__name__, "session": session}
+            if RE.md is not md:
+                bad.append(("metadata-store:engine-does-not-use-the-mapping-it-was-given", f"RunEngine(md) with an {'empty ' if not md else ''}{mk.__name__}: RE.md is not that object", case))
+            _run(RE, [Msg("open_run"), Msg("close_run")])
+            _run(RE, [Msg("open_run"), Msg("close_run")])
+            seen += [d.get("scan_id") for n, d in docs if n == "start"]
+        if seen != [1, 2, 3, 4] or md.get("scan_id") != 4:
+            bad.append(("metadata-store:scan_id-not-kept-in-the-callers-store", f"two engines in a row over one {mk.__name__} (empty at first): scan_ids {seen}, store says {md.get('scan_id')!r}", {"probe": "metadata-store", "mapping": mk.__name__}))
+    # (b) mutating validators
+    for kind in ("pops", "adds", "clears"):
+        RE, docs = _engine()
+
+        def validator(d, kind=kind):
+            if kind == "pops":
+                for k in list(d):
+                    if k not in ("uid",):
+                        d.pop(k)
+            elif kind == "adds":
+                d["sample"] = "filled-in-by-validator"
+                d["operator"] = "changed"
+            else:
+                d.clear()
+
+        RE.md_validator = validator
+        out = _run(RE, _listplan(Msg("open_run", operator="me"), Msg("close_run")))
+        starts = [d for n, d in docs if n == "start"]
+        case = {"probe": "metadata-store", "validator": kind}
+        if out[0] != "return" or len(starts) != 1:
+            bad.append(("metadata-store:run-with-mutating-validator-failed", f"validator that {kind}: {out[0]} {out[1]!r}, {len(starts)} RunStart", case))
+            continue
+        s = starts[0]
+        if s.get("scan_id") != 1 or s.get("operator") != "me" or "sample" in s or "plan_type" not in s:
+            bad.append(("metadata-store:validator-changed-the-RunStart", f"validator that {kind} its argument: RunStart has scan_id={s.get('scan_id')!r}, operator={s.get('operator')!r}, sample={s.get('sample')!r}, keys {sorted(s)}", case))
+    return bad
+
+
+def _listplan(*msgs):
+    def plan():
+        for m in msgs:
+            yield m
+    return plan()
+
+
+# ----------------------------------------------------------------------------- C19: a subscriber that dies during a dispatch
+def dying_subscriber_probe():
+    """a bound-method subscription whose owner is released by an EARLIER callback during the same dispatch (the registry
+    holds bound methods weakly): the dead subscription is skipped and dropped, nothing is raised, later callbacks still get
+    the document"""
+    import gc
+
+    from bluesky.utils import Msg
+
+    bad = []
+    for at in ("stop", "event", "descriptor"):
+        RE, docs = _engine()
+        got = {"consumer": [], "last": []}
+
+        class Consumer:
+            def cb(self, name, doc):
+                got["consumer"].append(name)
+
+        class Manager:
+            def __init__(self):
+                self.consumer = Consumer()
+
+            def __call__(self, name, doc, at=at):
+                if name == at and self.consumer is not None:
+                    self.consumer = None
+                    gc.collect()
+
+        mgr = Manager()
+        RE.subscribe(mgr)
+        RE.subscribe(mgr.consumer.cb)
+        RE.subscribe(lambda n, d: got["last"].append(n))
+
+        class Det:
+            parent = None
+            name = "det"
+
+            def read(self):
+                return {"det": {"value": 1, "timestamp": 0.0}}
+
+            def describe(self):
+                return {"det": {"source": "sim", "dtype": "number", "shape": []}}
+
+            def read_configuration(self):
+                return {}
+
+            def describe_configuration(self):
+                return {}
+
+        det = Det()
+        out = _run(RE, _listplan(Msg("open_run"), Msg("create", name="primary"), Msg("read", det), Msg("save"), Msg("close_run")))
+        out2 = _run(RE, _listplan(Msg("open_run"), Msg("close_run")))
+        case = {"probe": "dying-subscriber", "released_at": at}
+        want = ["start", "descriptor", "event", "stop", "start", "stop"]
+        if out[0] != "return" or out2[0] != "return":
+            bad.append((f"dying-subscriber:call-raised:{type((out[1] or out2[1])).__name__}", f"the owner of a bound-method subscription was released by an earlier callback at the {at} document: RE(...) raised {out[1]!r} / {out2[1]!r} although no callback raised", case))
+        elif got["last"] != want:
+            bad.append(("dying-subscriber:later-callback-missed-documents", f"released at {at}: the callback subscribed last received {got['last']}, expected {want}", case))
+    return bad
+
+
 # ----------------------------------------------------------------------------- C05: numbering across non-rewindable regions
 def nonrewindable_region_probe():
     """events saved while rewinding is switched OFF are never re-taken; when rewinding is switched back ON the numbering so
@@ -529,7 +741,7 @@ def _run_call(f):
         return f()
 
 
-PROBES = {"classic-flyer": classic_flyer_probe, "nonrewindable-region": nonrewindable_region_probe, "relative-moves": relative_moves_probe, "stale-deferred-pause": stale_deferred_pause_probe, "reused-message": reused_message_probe, "locate": locate_probe, "run-wrapper-exception": run_wrapper_exception_probe}
+PROBES = {"external-assets": external_assets_probe, "metadata-store": metadata_store_probe, "dying-subscriber": dying_subscriber_probe, "classic-flyer": classic_flyer_probe, "nonrewindable-region": nonrewindable_region_probe, "relative-moves": relative_moves_probe, "stale-deferred-pause": stale_deferred_pause_probe, "reused-message": reused_message_probe, "locate": locate_probe, "run-wrapper-exception": run_wrapper_exception_probe}
 
 
 def add_to(res, names):
